@@ -11,6 +11,7 @@ pub struct ScenarioStats {
 	pub blocks_delivered: u64,
 	pub state_comparisons: u64,
 	pub compaction_moved_tail: bool,
+	pub merkle_proofs_verified: u64,
 	/// `Chain::compact` returned this error (nothing may have changed)
 	pub compaction_declined: Option<String>,
 	pub pairs_spent: usize,
@@ -148,6 +149,7 @@ pub fn compaction_reorg_scenario_opts(seed: u64, depth: usize, dir: &str, header
 		blocks_delivered: 0,
 		state_comparisons: 0,
 		compaction_moved_tail: false,
+		merkle_proofs_verified: 0,
 		compaction_declined: None,
 		pairs_spent: n_pairs,
 		depth,
@@ -159,7 +161,17 @@ pub fn compaction_reorg_scenario_opts(seed: u64, depth: usize, dir: &str, header
 		let st = h.state(&s.head.0);
 		stats.state_comparisons += 1;
 		match compare_with_ref(&s, &st) {
-			None => Ok(()),
+			None => {
+				// and the Merkle proofs the node serves for unspent outputs (pruned / compacted neighbours included)
+				let mut pp = Prng::new(stats.state_comparisons ^ 0x3E4C);
+				match crate::snapshot::merkle_proof_probe(chain, &st, &mut pp, 6) {
+					Ok(n) => {
+						stats.merkle_proofs_verified += n;
+						Ok(())
+					}
+					Err(e) => Err((format!("{};merkle_proof_of_unspent_output", what), e, replay.clone())),
+				}
+			}
 			Some(d) => Err((
 				format!("{};state_vs_replay;{}", what, d.split(':').next().unwrap_or("").split('(').next().unwrap_or("").trim()),
 				d,
